@@ -37,15 +37,20 @@ def plan(tier, seed):
 
 def floors(tier):
     return {"distinct_nontrivial": 200, "cls:pos:cond": 500, "cls:pos:operand_an": 100, "cls:pos:operand_the": 30,
-            "cls:pos:argument": 100, "cls:pos:correlated_the": 100, "cls:pos:correlated_an": 100, "cls:pos:operand_value_eq": 100, "cls:pos:pred_arg_bound": 100, "cls:pos:ctor_arg_bound": 100, "cls:pos:operand_in_or": 100, "cls:pos:operand_attr": 100, "cls:pos:container": 100, "cls:conn:&": 150, "cls:conn:|": 150, "cls:sub:set": 100, "cls:sub:ent0": 100,
+            "cls:pos:argument": 100, "cls:pos:correlated_the": 100, "cls:pos:correlated_an": 100, "cls:pos:operand_value_eq": 100, "cls:pos:pred_arg_bound": 100, "cls:pos:ctor_arg_bound": 100, "cls:pos:operand_in_or": 100, "cls:pos:operand_attr": 100, "cls:pos:container": 100, "cls:pos:alias_in_or": 100, "cls:conn:&": 150, "cls:conn:|": 150, "cls:sub:set": 100, "cls:sub:ent0": 100,
             "cls:sub:ent1": 100, "cls:with_plain": 100, "re:An@.*\\.enter": 1000}
 
 
 def gen_case(rng):
     world = D.random_world(rng, np_=(2, 4), nq=(2, 4))
     pos = rng.choice(["cond", "cond", "cond", "operand_an", "operand_the", "argument", "correlated_the", "correlated_an",
-                      "operand_value_eq", "pred_arg_bound", "ctor_arg_bound", "operand_in_or", "operand_attr", "container"])
+                      "operand_value_eq", "pred_arg_bound", "ctor_arg_bound", "operand_in_or", "operand_attr", "container", "alias_in_or"])
     case = {"world": world, "pos": pos, "caching": rng.random() < 0.7}
+    if pos == "alias_in_or":
+        # ONE attribute expression object (flag = y.flag, falsy values in the data) is the operand of a comparison and the whole
+        # condition of a sub-query in the later alternative of a disjunction
+        case["world"] = D.random_world(rng, np_=(2, 4), nq=(2, 4), falsy=True)
+        return case
     if pos in ("correlated_the", "correlated_an"):
         case["attr"] = rng.choice(["a", "b"])
         case["op"] = rng.choice(["==", "!=", "<="])
@@ -90,6 +95,8 @@ def expected(case, world):
     if case["pos"] == "cond":
         fc = flat_cond(case)
         return [(m[id(p)], m[id(q)]) for p, q in itertools.product(ps, qs) if C.holds(fc, (p, q))]
+    if case["pos"] == "alias_in_or":
+        return [(m[id(q)], m[id(p)]) for q in qs for p in ps if q.a == p.flag or bool(p.flag)]
     if case["pos"] in ("correlated_the", "correlated_an"):
         # x.attr OP the(entity(y.attr, y == x.p)): the sub-query refers to the enclosing query's variable
         return [(m[id(q)],) for q in qs if C.OPS[case["op"]](getattr(q, case["attr"]), getattr(q.p, case["attr"]))]
@@ -168,6 +175,15 @@ def run(case, world, caching, times=1, flattened=False):
                     quant = the if case["pos"] == "correlated_the" else an
                     q = an(set_of([x], op(getattr(x, case["attr"]), quant(entity(getattr(y, case["attr"]), y == x.p)))))
                 sel = [x]
+            elif case["pos"] == "alias_in_or":
+                y = let(D.P, ps)
+                x = let(D.Q, qs)
+                flag = y.flag
+                if flattened:
+                    q = an(set_of([x, y], (x.a == flag) | flag))
+                else:
+                    q = an(set_of([x, y], (x.a == flag) | an(entity(y, flag))))
+                sel = [x, y]
             elif case["pos"] == "operand_value_eq":
                 es = world["E"]
                 copies = _copies(world)
@@ -270,6 +286,8 @@ def check_case(case, ctx):
         total = len(world["E"])
     elif case["pos"] == "pred_arg_bound":
         total = len(world["P"])
+    elif case["pos"] == "alias_in_or":
+        total = len(world["P"]) * len(world["Q"])
     else:
         total = len(world["Q"])
     if 0 < len(set(exp)) < total:
